@@ -188,8 +188,8 @@ def run(cx):
         cx.check('C03.T1', len(sm) == 2, e.path, 'calls', 'two-limits', str(len(sm)))
         if len(sm) == 2:
             first, second = sorted(sm, key=lambda s: s.fn.span(s.bb)[0])
-            cx.check('C03.T1', bool(re.search(r'set_max_size\(BinEncoder::new\(.*\),phi\((Edns::max_payload\(arg1\.edns@Some\.0\)|512|const:(u16|num)::MAX|65535)(\|(Edns::max_payload\(arg1\.edns@Some\.0\)|512|const:(u16|num)::MAX|65535)){2}\)\)$', first.term)),
-                     e.path, first.key(), 'limit-is-one-of(edns payload,512,u16::MAX)', first.term, first.loc)
+            cx.check('C03.T1', bool(re.search(r'set_max_size\(BinEncoder::new\(.*\),phi\(((Ord::min\(Edns::max_payload\(arg1\.edns@Some\.0\),const:message_response::MAX_UDP_PAYLOAD\)|Ord::min\(Edns::max_payload\(arg1\.edns@Some\.0\),6550[0-7]\))|512|const:(u16|num)::MAX|65535)(\|((Ord::min\(Edns::max_payload\(arg1\.edns@Some\.0\),const:message_response::MAX_UDP_PAYLOAD\)|Ord::min\(Edns::max_payload\(arg1\.edns@Some\.0\),6550[0-7]\))|512|const:(u16|num)::MAX|65535)){2}\)\)$', first.term)),
+                     e.path, first.key(), 'limit-is-one-of(min(edns payload, largest datagram),512,u16::MAX)', first.term, first.loc)
             cx.check('C03.T1', second.term.endswith(',512)'), e.path, second.key(), 'fallback-limit-512', second.term, second.loc)
         # the fallback response is written into an EMPTY buffer: a second encoder over the same Vec must be preceded by clear()
         # (a new BinEncoder starts at offset 0 but does not shorten the Vec: bytes of the failed attempt would trail the SERVFAIL header)
